@@ -7,7 +7,7 @@ EXPLANATION = ('Value-flow normal forms of ChainTracker::{new,step,stats}, Multi
                'sm2 = (mean_sq - mean^2) n/(n-1); collect_rhat = sqrt(var/W), W = mean_j sm2_j, var = (n-1)/n W + sum_j (mean_j - mean)^2/(m-1) with m the NUMBER '
                'OF CHAINS; MultiChainTracker::rhat the same form (B = n/(m-1) sum, var = (n-1)/n W + B/n); acceptance EMA p := (1-a) p + a [x != last], a = 1/100, '
                'indicator in {0,1}, initial value in [0,1] (negative sentinel replaced by the first indicator), last_state := x.')
-FLOORS = {'obligations': 34}   # counted on the reference tree; fewer instantiated obligations is reported, never passed silently
+FLOORS = {'obligations': 35}   # counted on the reference tree; fewer instantiated obligations is reported, never passed silently
 TECHNIQUE = 'value-flow normal form vs specification table; sibling agreement; fold (loop) summary for the EMA'
 HUND = T.div(T.ONE, N(100))
 
@@ -161,3 +161,15 @@ def run(ctx):
         ctx.eq('C13.mt.rhat', A, 'rhat', found, exps[0], alts=exps[1:], sp=b['sp'],
                why='classical sqrt(var+/W) with B = n/(m-1) sum_j (mean_j - mean)^2, var+ = (n-1)/n W + B/n, W = mean_j sm2_j, m = number of chains '
                    '(same form as collect_rhat: sibling agreement)')
+    A = 'MultiChainTracker::max_rhat'
+    b = ctx.anchor(A, name='max_rhat', self_head=MT, container='inherent')
+    rk = 'stats::MultiChainTracker::rhat'
+    if b is None:
+        ctx.unknown('C13.mt.max_rhat', A, 'anchor', why='anchor not found')
+    else:
+        ev = ctx.evaluate(b, no_inline=(rk,))
+        found = assume_ok(ev.ret_term)
+        calls = ev.events(lambda e: e.key == rk)
+        ok = len(calls) == 1 and calls[0].args[0] is S('self') and found is T.app('max_all', assume_ok(calls[0].res))
+        ctx.check('C13.mt.max_rhat', A, 'max', ok, expected='max over the parameters of self.rhat()', found=show(found)[:200], sp=b['sp'],
+                  why='the progress display reports the WORST parameter: the largest R-hat of exactly the tracker\'s own rhat()')
